@@ -1041,6 +1041,119 @@ Proof.
     destruct Hc as [Hc|[Hc|[Hc|Hc]]]; rewrite Hc; reflexivity.
 Qed.
 
+(* ---- OpenFile as a call of its own (the handle is closed at once on the specification side) ---------------------------- *)
+Lemma upd_same (h : heap) (i : nat) (x : node) : get h i = Some x -> upd h i x = h.
+Proof.
+  unfold get. revert i. induction h as [|y h IH]; intros [|i] Hg; cbn [upd nth_error] in *; try discriminate.
+  - injection Hg as ->. reflexivity.
+  - rewrite IH by exact Hg. reflexivity.
+Qed.
+
+Lemma with_heap_same (s : fsys) : with_heap s (f_heap s) = s.
+Proof. destruct s; reflexivity. Qed.
+
+(* same resulting file system; same errno, or the handle is on the node open(2) returns *)
+Definition open_sim (a : fsys * (res + handle)) (b : fsys * (N + nat)) : Prop :=
+  fst a = fst b /\
+  match snd a, snd b with
+  | inl r, inl e => exists ek, r = RFail ek /\ snd (ecode Linux ek) = e
+  | inr f, inr c => hd_node f = Some c
+  | _, _ => False
+  end.
+
+Ltac osim := split; [reflexivity|first [reflexivity | eexists; osim]].
+
+Theorem step_open_rdonly (s : fsys) (sv : sview) (vi : nat) (cs : list str) (perm : N) :
+  step_hyps s sv -> path_ok s sv SlEval cs ->
+  open_sim (open_file s (sv_view sv) vi (abs_path cs) 0 perm) (k_open s sv (abs_path cs) 0 perm).
+Proof.
+  intros H Hp. pose proof (resolve s sv SlEval cs H Hp) as R. destruct Hp as (_ & _ & Hnf).
+  pose proof (resolve_nosym s sv SlEval cs) as Hns.
+  rewrite (open_rdonly _ _ _ _ _ (abs_path_nonempty cs)). cbv zeta.
+  unfold k_open. change (decode_flags 0) with (OF 0 false false false false). cbv iota beta zeta.
+  change (negb (N.eqb (N.land (acc_mask 0 false) 2) 0)) with false. change (acc_mask 0 false) with 4%N. cbn [andb negb].
+  change (follow_of SlEval) with true in R. change (precise_of SlEval) with true in R.
+  destruct (klookup s sv false true (abs_path cs)) as [par kind name n|par name md| |e]; cbn [walk_rel] in R.
+  - destruct R as (R1 & R2 & R3 & _ & R4 & _). specialize (Hns n H eq_refl R1 R2).
+    rewrite R1, (R4 eq_refl), R2. cbn [is_file_exists is_not_exist negb andb orb].
+    destruct (get (f_heap s) n) as [[ch m|dt k i m|t m]|] eqn:Hg; [| |exfalso; exact (Hns t m eq_refl)|congruence].
+    + unfold check_permission. rewrite (sh_admin _ _ H), (admin_kperm s sv n _ H) by congruence. cbn [negb andb].
+      osim.
+    + unfold check_permission. rewrite (sh_admin _ _ H), (admin_kperm s sv n _ H) by congruence. cbn [negb andb orb].
+      rewrite (upd_same _ _ _ Hg), with_heap_same. osim.
+  - destruct R as (R1 & R2 & R3 & R4). destruct (at_name_views _ _ _ _ _ _ (R4 eq_refl)) as (_ & V2 & _).
+    rewrite R1, V2. osim.
+  - destruct R.
+  - destruct R as (R1 & R2). destruct (werr_cases _ _ R1 Hnf) as (Hc & ->).
+    destruct Hc as [Hc|[Hc|[Hc|Hc]]]; rewrite Hc in *; try osim.
+    rewrite (R2 eq_refl eq_refl). osim.
+Qed.
+
+Section OpenWct.
+  Variables (s : fsys) (sv : sview) (vi : nat) (w : list str) (cl : str) (perm : N).
+  Hypothesis H : step_hyps s sv.
+  Hypothesis Hp0 : path_ok s sv SlLstat (w ++ [cl]).
+  Hypothesis Hp : path_ok s sv SlEval (w ++ [cl]).
+  Hypothesis Hsg : no_setgid_parent_follow s sv (w ++ [cl]).
+  Notation p := (abs_path (w ++ [cl])).
+  Notation v := (sv_view sv).
+
+  Lemma open_wct_main (Kpm : wres) :
+    klookup s sv true false p = Kpm ->
+    (Kpm = klookup s sv false true p /\ exists e, Kpm = WErr e) \/ (exists par0, Kpm = WParent par0 LNorm cl false) ->
+    open_sim (open_file s v vi p WCT perm) (k_open s sv p WCT perm).
+  Proof.
+    intros Hpm Hcase. pose proof (resolve s sv SlEval (w ++ [cl]) H Hp) as R.
+    pose proof (resolve_nosym s sv SlEval (w ++ [cl])) as Hns.
+    destruct Hp0 as (Hg & _). destruct Hp as (_ & Hk1 & Hnf).
+    change (follow_of SlEval) with true in R, Hk1. change (precise_of SlEval) with true in R.
+    pose proof (klookup_final s sv true (w ++ [cl]) Hg) as Hfin.
+    pose proof (sh_admin _ _ H) as Hadm.
+    rewrite (open_wct _ _ _ _ _ (abs_path_nonempty _)). cbv zeta.
+    unfold k_open. change (decode_flags WCT) with (OF 1 true false true false).
+    cbv iota beta zeta. change (negb (N.eqb (N.land (acc_mask 1 true) 2) 0)) with true.
+    change (acc_mask 1 true) with 2%N. cbn [andb negb orb]. rewrite Hpm. unfold no_setgid_parent_follow in Hsg.
+    set (r := search_node s v p SlEval) in *.
+    destruct Hcase as [(E1 & e0 & E2)|(par0 & ->)].
+    { rewrite <- E1, E2 in R. rewrite E2. cbn [walk_rel] in R. destruct R as (R1 & R2).
+      destruct (werr_cases _ _ R1 Hnf) as (Hc & ->).
+      destruct Hc as [Hc|[Hc|[Hc|Hc]]]; rewrite Hc in *; try osim.
+      rewrite (R2 eq_refl eq_refl). osim. }
+    cbv iota.
+    destruct (klookup s sv false true p) as [par kind name n|par name md|a b c d|e] eqn:HK1; cbn [walk_rel] in R.
+    - destruct R as (R1 & R2 & R3 & _ & R4 & _). specialize (Hns n H eq_refl R1 R2).
+      rewrite R1, (R4 eq_refl), R2. cbn [is_file_exists is_not_exist negb andb orb].
+      destruct (get (f_heap s) n) as [[ch m|dt k i m|t m]|] eqn:Hgn;
+        [osim| |exfalso; exact (Hns t m eq_refl)|congruence].
+      unfold check_permission. rewrite Hadm, (admin_kperm s sv n _ H) by congruence. cbn [negb andb orb].
+      rewrite (drop_privs_admin _ _ Hadm). osim.
+    - destruct Hfin as (F1 & F2 & _). destruct R as (R1 & R2 & R3 & R4).
+      destruct (at_name_views _ _ _ _ _ _ (R4 eq_refl)) as (V1 & V2 & _).
+      rewrite R1, V2, R3, V1, F1. cbn [is_file_exists is_not_exist negb andb orb].
+      rewrite (admin_perm_on s sv par _ H) by (apply node_is_dir_valid; exact F2).
+      rewrite (admin_kperm s sv par 3 H) by (apply node_is_dir_valid; exact F2). cbn [negb].
+      unfold create_file, alloc_child, kmeta, new_meta, new_owner_gid.
+      rewrite (Hsg _ _ _ eq_refl), (sh_os _ _ H). cbn [file_mode andb]. osim.
+    - destruct R.
+    - destruct R as (R1 & R2). destruct (werr_cases _ _ R1 Hnf) as (Hc & ->).
+      destruct Hc as [Hc|[Hc|[Hc|Hc]]]; rewrite Hc in *; try osim.
+      rewrite (R2 eq_refl eq_refl). osim.
+  Qed.
+
+  Theorem step_open_wct : open_sim (open_file s v vi p WCT perm) (k_open s sv p WCT perm).
+  Proof.
+    destruct Hp0 as (Hg & Hk0 & _). change (follow_of SlLstat) with false in Hk0.
+    destruct (klookup_pm s sv false w cl Hg Hk0) as (_ & _ & Hpm).
+    apply (open_wct_main _ Hpm).
+    destruct (klookup s sv false false p) as [par0 k0 n0 c0|par0 n0 md0|a b c d|e0] eqn:HK0.
+    - right. eauto.
+    - right. eauto.
+    - exfalso. exact (klookup_not_parent _ _ _ _ _ _ _ _ HK0).
+    - left. split; [symmetry; exact (klookup_err_follow s sv w cl e0 Hg HK0)|eauto].
+  Qed.
+End OpenWct.
+
+
 (* ---- the step theorem at the level of worlds --------------------------------------------------------------------- *)
 (* the specification state [sw] abstracts the world [w] seen through view [vi]: same file system, same view
    (the working directory plays no role for absolute paths) *)
@@ -1066,6 +1179,11 @@ Definition covered (vi : nat) (sw : sworld) (c : call) : Prop :=
   | CSymlink vi' t p =>
       vi' = vi /\ t = clean Linux t /\
       exists w cl, p = abs_path (w ++ [cl]) /\ path_ok s sv SlLstat (w ++ [cl]) /\ no_setgid_parent s sv (w ++ [cl])
+  | COpenFile vi' p flag _ =>
+      vi' = vi /\
+      ((flag = 0%N /\ exists cs, p = abs_path cs /\ path_ok s sv SlEval cs)
+       \/ (flag = WCT /\ exists w cl, p = abs_path (w ++ [cl]) /\ path_ok s sv SlLstat (w ++ [cl])
+                                       /\ path_ok s sv SlEval (w ++ [cl]) /\ no_setgid_parent_follow s sv (w ++ [cl])))
   | CRemove vi' p =>
       vi' = vi /\ sym_single (f_heap s) /\ exists w cl, p = abs_path (w ++ [cl]) /\ path_ok s sv SlLstat (w ++ [cl])
   | CLink vi' o p =>
@@ -1212,6 +1330,21 @@ Lemma world_of_ro (w : world) (vi : nat) (sw : sworld) (c : call) (r : res) (g :
   /\ absw (fst (impl_step_proj w c)) vi (fst (spec_step true sw c)).
 Proof. intros Ha Ei Es E. rewrite Ei, Es. cbn [fst snd]. split; [exact E|exact Ha]. Qed.
 
+(* at the level of worlds: the implementation's world gets a handle, which the abstraction does not look at *)
+Lemma world_open (w : world) (vi : nat) (sw : sworld) (p : str) (flag perm : N) :
+  absw w vi sw ->
+  open_sim (open_file (w_fs w) (sv_view (sw_sv sw)) vi p flag perm) (k_open (sw_fs sw) (sw_sv sw) p flag perm) ->
+  obs_sim (snd (impl_step_proj w (COpenFile vi p flag perm))) (snd (spec_step true sw (COpenFile vi p flag perm)))
+  /\ absw (fst (impl_step_proj w (COpenFile vi p flag perm))) vi (fst (spec_step true sw (COpenFile vi p flag perm))).
+Proof.
+  intros (Hfs & Hv) Hs. unfold impl_step_proj, spec_step, wstep, on_view. rewrite Hv.
+  destruct (open_file (w_fs w) (sv_view (sw_sv sw)) vi p flag perm) as [s1 [r|f]];
+    destruct (k_open (sw_fs sw) (sw_sv sw) p flag perm) as [s1' [e|c]];
+    destruct Hs as (E1 & E2); cbn [fst snd] in *; try contradiction; subst s1'.
+  - destruct E2 as (ek & -> & <-). split; [apply obs_sim_refl|]. split; [reflexivity|exact Hv].
+  - split; [apply obs_sim_refl|]. split; [reflexivity|exact Hv].
+Qed.
+
 Theorem step_world (w : world) (vi : nat) (sw : sworld) (c : call) :
   absw w vi sw -> covered vi sw c ->
   obs_sim (snd (impl_step_proj w c)) (snd (spec_step true sw c))
@@ -1225,6 +1358,11 @@ Proof.
     + apply (impl_lift w _ _ (wstep_mkdir w vi _ Hv p perm)); [left; discriminate|exact I].
     + apply spec_mkdir.
     + rewrite <- Hfs, Ep. exact (step_mkdir (sw_fs sw) (sw_sv sw) ww cl perm H Hp Hsg).
+  - (* OpenFile *)
+    destruct Hc as (-> & [(-> & cs & Ep & Hp)|(-> & ww & cl & Ep & Hp0 & Hp & Hsg)]); apply (world_open w vi sw _ _ _ Ha);
+      rewrite <- Hfs, Ep.
+    + exact (step_open_rdonly (sw_fs sw) (sw_sv sw) vi cs perm H Hp).
+    + exact (step_open_wct (sw_fs sw) (sw_sv sw) vi ww cl perm H Hp0 Hp Hsg).
   - (* Remove *)
     destruct Hc as (-> & Hss & ww & cl & Ep & Hp).
     apply (world_of_lift w vi sw _ (remove (w_fs w) (sv_view (sw_sv sw)) p) (go_remove (sw_fs sw) (sw_sv sw) p) Ha).
